@@ -351,9 +351,14 @@ BOUNDARY = {
 EXPOSED = {"load_factor": "flight load factor multiplying every inertial load; one value per analysis point"}
 
 
-def w5(chk, repo):
-    chk.rule("W5", "wherever a subsystem of a repository group has an input named load_factor in some option valuation, the group promotes it under that name in that valuation (otherwise the component silently keeps its default 1.0 while the other loads see the user's value)", min_decided=6)
+def exposure(chk, repo, rule, names, groups=None, boundary=None, min_decided=1, text=None):
+    """wherever a subsystem of a repository group has an input in ``names`` in some
+    valuation, the group promotes (or connects) it in that valuation."""
+    boundary = boundary or {}
+    chk.rule(rule, text or ("wherever a subsystem of a repository group has an input named %s in some option valuation, the group promotes it under that name (or connects it) in that valuation: otherwise the component silently keeps its default while the rest of the model sees the user's value" % " / ".join(sorted(names))), min_decided=min_decided)
     for g in repo.groups():
+        if groups is not None and g.name not in groups:
+            continue
         gm = group_model(repo, g)
         res = {}
         for gr in gm.runs:
@@ -368,13 +373,13 @@ def w5(chk, repo):
                     if o == owner and b_:
                         tg.add(b_.replace("[0]", "[i]"))
                 for (sname, var), lvl in lv.rename.items():
-                    if var not in EXPOSED:
+                    if var not in names:
                         continue
                     if lvl not in lv.names[sname][0]:
                         continue
                     key = "%s/%s %s.%s" % (g.name, owner, sname, var)
-                    if (g.name, owner, sname, var) in BOUNDARY:
-                        chk.info("W5", key, g.where, "documented connection point: " + BOUNDARY[(g.name, owner, sname, var)])
+                    if (g.name, owner, sname, var) in boundary:
+                        chk.info(rule, key, g.where, "documented connection point: " + boundary[(g.name, owner, sname, var)])
                         continue
                     if sname in unk:
                         res.setdefault(key, []).append(("unknown", gr))
@@ -386,11 +391,15 @@ def w5(chk, repo):
             bad = [gr for st, gr in lst if st == "dotted"]
             unkn = [gr for st, gr in lst if st == "unknown"]
             if bad:
-                chk.violation("W5", key, g.where, "input %s exists but is neither promoted nor connected under %s (%d of %d valuations)" % (key.split(" ")[1], sig_txt(bad[0].sigma), len(bad), len(lst)))
+                chk.violation(rule, key, g.where, "input %s exists but is neither promoted nor connected under %s (%d of %d valuations)" % (key.split(" ")[1], sig_txt(bad[0].sigma), len(bad), len(lst)))
             elif unkn:
-                chk.undecided("W5", key, g.where, "promotes list not resolved under %s" % sig_txt(unkn[0].sigma))
+                chk.undecided(rule, key, g.where, "promotes list not resolved under %s" % sig_txt(unkn[0].sigma))
             else:
-                chk.ok("W5", key, g.where, "promoted in all %d valuations where it exists" % len(lst))
+                chk.ok(rule, key, g.where, "promoted in all %d valuations where it exists" % len(lst))
+
+
+def w5(chk, repo):
+    exposure(chk, repo, "W5", EXPOSED, boundary=BOUNDARY, min_decided=6)
 
 
 def run(chk, repo, tier):
